@@ -372,7 +372,7 @@ theorem mAddUse_metrics {rank ty : String} {c pos : Int} {itn : Option (List Int
   obtain ⟨lo, pt, i, _, _, _, _, _, hr⟩ := mAddUse_some h
   exact (recordUse_core hr).met
 
-theorem step_metrics_other {op : MOp} {s s' : MState} {x : Ret} (h : step op s = some (x, s'))
+theorem step_metrics_other {op : MOp} {s s' : MState} {x : MRet} (h : step op s = some (x, s'))
     (hb : op.isBegin = false) (hc : ∀ l k n, op ≠ .incCount l k n) : s'.metrics = s.metrics := by
   cases op with
   | beginCollect p => simp [MOp.isBegin] at hb
@@ -499,7 +499,7 @@ theorem sumInc_append (line metric : String) (a b : List MOp) :
   | cons op a ih =>
     rw [List.cons_append, sumInc_cons, ih, sumInc_cons line metric op a]; omega
 
-theorem step_count {op : MOp} {s s' : MState} {x : Ret} (h : step op s = some (x, s'))
+theorem step_count {op : MOp} {s s' : MState} {x : MRet} (h : step op s = some (x, s'))
     (hb : op.isBegin = false) (line metric : String) :
     count s' line metric = count s line metric + sumInc line metric [op] := by
   by_cases hc : ∃ l k n, op = .incCount l k n
@@ -533,7 +533,7 @@ theorem step_count {op : MOp} {s s' : MState} {x : Ret} (h : step op s = some (x
     rw [h0]
     simp [count, hm]
 
-theorem runOps_cons {op : MOp} {ops : List MOp} {s s' : MState} {rs : List Ret}
+theorem runOps_cons {op : MOp} {ops : List MOp} {s s' : MState} {rs : List MRet}
     (h : runOps (op :: ops) s = some (rs, s')) :
     ∃ r s1 rs', step op s = some (r, s1) ∧ runOps ops s1 = some (rs', s') ∧ rs = r :: rs' := by
   simp only [runOps] at h
@@ -551,7 +551,7 @@ theorem runOps_cons {op : MOp} {ops : List MOp} {s s' : MState} {rs : List Ret}
       simp only [Option.bind_some, Option.pure_def, Option.some.injEq, Prod.mk.injEq] at h
       exact ⟨r, s1, rs', rfl, by rw [← h.2]; exact h2, h.1.symm⟩
 
-theorem runOps_append {a b : List MOp} {s s' : MState} {rs : List Ret}
+theorem runOps_append {a b : List MOp} {s s' : MState} {rs : List MRet}
     (h : runOps (a ++ b) s = some (rs, s')) :
     ∃ s1 ra rb, runOps a s = some (ra, s1) ∧ runOps b s1 = some (rb, s') ∧ rs = ra ++ rb := by
   induction a generalizing s rs with
@@ -562,7 +562,7 @@ theorem runOps_append {a b : List MOp} {s s' : MState} {rs : List Ret}
     refine ⟨s2, r :: ra, rb, ?_, h4, rfl⟩
     simp [runOps, h1, h3]
 
-theorem runOps_count {ops : List MOp} {s s' : MState} {rs : List Ret}
+theorem runOps_count {ops : List MOp} {s s' : MState} {rs : List MRet}
     (h : runOps ops s = some (rs, s')) (hb : ∀ op ∈ ops, op.isBegin = false) (line metric : String) :
     count s' line metric = count s line metric + sumInc line metric ops := by
   induction ops generalizing s rs with
